@@ -48,6 +48,7 @@ type runResult struct {
 	Seed       uint64         `json:"seed"`
 	Run        uint64         `json:"run"`
 	Violations []violation    `json:"violations,omitempty"`
+	KnownHits  []violation    `json:"known_hits,omitempty"`
 	Harness    string         `json:"harness_error,omitempty"`
 	Decisions  []int          `json:"decisions,omitempty"`
 	NDecisions int            `json:"n_decisions"`
@@ -67,6 +68,8 @@ type workerSummary struct {
 	Worker      int               `json:"worker"`
 	Runs        int               `json:"runs"`
 	Failures    []runResult       `json:"failures,omitempty"`
+	Known       []runResult       `json:"known,omitempty"`
+	KnownCount  map[string]int    `json:"known_count,omitempty"`
 	Harness     []runResult       `json:"harness_errors,omitempty"`
 	Stats       map[string]int    `json:"stats"`
 	PerScenario map[string]int    `json:"per_scenario"`
@@ -168,7 +171,7 @@ func startWorker(bin, dir string, prop string, env map[string]string, tag string
 	w := &workerRun{out: filepath.Join(dir, tag+".json"), status: filepath.Join(dir, tag+".status"), stderr: filepath.Join(dir, tag+".err")}
 	cmd := exec.Command(bin, "-test.run", "^TestWorker$", "-test.timeout", "0")
 	cmd.Dir = dir
-	e := append(os.Environ(), "VERIF_PROP="+prop, "VERIF_OUT="+w.out, "VERIF_STATUS="+w.status)
+	e := append(os.Environ(), "VERIF_PROP="+prop, "VERIF_OUT="+w.out, "VERIF_STATUS="+w.status, "VERIF_KNOWN_FILE="+filepath.Join(verifDir, "known_findings.json"))
 	for k, v := range env {
 		e = append(e, k+"="+v)
 	}
@@ -427,8 +430,10 @@ func cmdCheck(prop, tier string) int {
 		v      violation
 		rf     replayFile
 		crash  bool
+		known  bool
 		worker int
 	}
+	knownRuns := map[string]int{}
 	var finds []finding
 	agg := workerSummary{Stats: map[string]int{}, PerScenario: map[string]int{}, Hashes: map[string]string{}}
 	distinct := map[string]struct{}{}
@@ -484,6 +489,15 @@ func cmdCheck(prop, tier string) int {
 		}
 		for _, h := range sum.Harness {
 			harnessTrouble = append(harnessTrouble, fmt.Sprintf("worker %d run %d (%s): %s", w.idx, h.Run, h.Scenario, h.Harness))
+		}
+		for _, f := range sum.Known {
+			for _, v := range f.KnownHits {
+				finds = append(finds, finding{v: v, worker: w.idx, known: true, rf: replayFile{Prop: prop, Scenario: f.Scenario, Seed: f.Seed, Run: f.Run, Decisions: f.Decisions, Violation: v, TraceHash: f.TraceHash}})
+				break
+			}
+		}
+		for r, n := range sum.KnownCount {
+			knownRuns[r] += n
 		}
 		for _, f := range sum.Failures {
 			for _, v := range f.Violations {
@@ -576,7 +590,7 @@ func cmdCheck(prop, tier string) int {
 				continue
 			}
 			hit := false
-			for _, v := range res.Violations {
+			for _, v := range append(res.Violations, res.KnownHits...) {
 				hit = hit || v.Rule == f.v.Rule
 			}
 			ok = ok && hit
@@ -591,7 +605,7 @@ func cmdCheck(prop, tier string) int {
 		}
 		if k := matchKnown(known, rf.Violation); k != nil {
 			if !knownHit[k.What] {
-				fmt.Printf("KNOWN-FINDING: property=%s %s (rule %s; replay %s)\n", prop, k.What, k.Rule, path)
+				fmt.Printf("KNOWN-FINDING: property=%s %s (rule %s; hit in %d runs; replay %s)\n", prop, k.What, k.Rule, knownRuns[k.Rule], path)
 			}
 			knownHit[k.What] = true
 			continue
@@ -658,6 +672,7 @@ func cmdCheck(prop, tier string) int {
 			"stub_components":            meta.Stub,
 			"lock_sites_instrumented":    info.LockSites,
 			"known_findings_hit":         len(knownHit),
+			"known_finding_runs":         knownRuns,
 			"workers":                    tc.workers,
 			"exploration_budget_s":       tc.budgetS,
 		},
